@@ -250,6 +250,26 @@ mk B16; d=$D
 edit "$d/stats/quantileci.go" 's.replace("\t\tif r <= l {\n", "\t\tif r < l {\n")'
 expect B16 "$d" C11 tie_failed tie_QuantileCI_normal
 
+echo "== H10 harmless: labeledMerge with the branches swapped (x2 first unless x1[i] < x2[j]); rank computed as (rank1+i)/2"
+mk H10; d=$D
+edit "$d/stats/utest.go" 's.replace("\t\tif x1[i] < x2[j] {\n\t\t\tmerged[o] = x1[i]\n\t\t\tlabels[o] = 1\n\t\t\ti++\n\t\t} else {\n\t\t\tmerged[o] = x2[j]\n\t\t\tlabels[o] = 2\n\t\t\tj++\n\t\t}", "\t\tif !(x1[i] < x2[j]) {\n\t\t\tmerged[o] = x2[j]\n\t\t\tlabels[o] = 2\n\t\t\tj++\n\t\t} else {\n\t\t\tmerged[o] = x1[i]\n\t\t\tlabels[o] = 1\n\t\t\ti++\n\t\t}").replace("rank := float64(i+rank1) / 2", "rank := float64(rank1+i) / 2")'
+expect H10 "$d" C01 ok
+
+echo "== B17 breaking: labeledMerge takes x1 first on equal values (<=)"
+mk B17; d=$D
+edit "$d/stats/utest.go" 's.replace("\t\tif x1[i] < x2[j] {", "\t\tif x1[i] <= x2[j] {")'
+expect B17 "$d" C01 tie_failed tie_labeledMerge
+
+echo "== B18 breaking: the average rank of a tie group is off by a half"
+mk B18; d=$D
+edit "$d/stats/utest.go" 's.replace("rank := float64(i+rank1) / 2", "rank := float64(i+rank1+1) / 2")'
+expect B18 "$d" C03 tie_failed tie_MannWhitneyUTest
+
+echo "== B19 breaking: LocationGreater uses CDF(U1) without the half step (defect D3 again)"
+mk B19; d=$D
+edit "$d/stats/utest.go" 's.replace("p = 1 - dist.CDF(U1-0.5)", "p = 1 - dist.CDF(U1)")'
+expect B19 "$d" C01 tie_failed tie_MannWhitneyUTest
+
 if [ $FULL = 1 ]; then
   echo "== full check on B1: both ties report (correspondence finds a failing input)"
   out=$(VERIF_REPO="$B1" bin/check C13 quick 2>&1); rc=$?
